@@ -6,8 +6,10 @@
 package c12
 
 import (
+	"encoding/json"
 	"fmt"
 	"net/url"
+	"os"
 	"strings"
 	"testing"
 
@@ -17,6 +19,7 @@ import (
 	"github.com/ogen-go/ogen/openapi/parser"
 	"github.com/ogen-go/ogen/uri"
 
+	"verif/internal/c05x"
 	"verif/internal/vk"
 )
 
@@ -400,5 +403,58 @@ func TestSpecDuplicates(t *testing.T) {
 			u.Label("respelt-identical")
 		}
 		return checkDup(c)
+	})
+}
+
+// ---- request level: equivalent re-escapings reach the same operation -----------
+//
+// Servers are regenerated from /repo for route sets of the C05 generators; every
+// served (or 405) request is re-sent in k equivalent spellings (unreserved bytes
+// percent-escaped at random, hex digits of escapes in random case) and must give
+// the same operation, arguments, status and FindPath result (internal/c05x/respell.go).
+
+func TestRespell(t *testing.T) {
+	u := vk.New(t, "C12", "respell-routesets")
+	defer u.Close()
+	if p := os.Getenv("VERIF_REPLAY"); p != "" {
+		data, err := os.ReadFile(p)
+		if err != nil {
+			t.Fatal(err)
+		}
+		var doc struct {
+			Unit string           `json:"unit"`
+			Case c05x.RespellCase `json:"case"`
+		}
+		if err := json.Unmarshal(data, &doc); err != nil || doc.Unit != "respell" {
+			return
+		}
+		c := doc.Case
+		c05x.RunBatchAlts(u, "replay", [][]c05x.RouteSpec{c.Routes}, [][]c05x.Request{{{Method: c.Method, Raw: c.Canonical, SafeOf: -1}}}, []string{c.Respelt}, "replay", "VERIF_C05_MODE=respell")
+		return
+	}
+	// a seed-selected slice of the bounded-exhaustive small family
+	tpls := c05x.SmallTemplates()
+	shard, shards := vk.Shard()
+	stride := vk.N(400, 40)
+	seed := vk.Seed()
+	var mine [][]c05x.RouteSpec
+	c05x.EnumerateSets(tpls, func(idx int, set []string) {
+		if (uint64(idx)+seed*7)%uint64(stride) != 0 || (idx/stride)%shards != shard {
+			return
+		}
+		mine = append(mine, c05x.WithMethods(set, seed))
+	})
+	for i := 0; i < len(mine); i += c05x.BatchSize {
+		j := i + c05x.BatchSize
+		if j > len(mine) {
+			j = len(mine)
+		}
+		c05x.RunBatch(u, "small", mine[i:j], nil, "small", "VERIF_C05_MODE=respell")
+	}
+	// random larger sets
+	n := 0
+	vk.Rapid(u, vk.N(2, 64), nil, c05x.DrawRandomBatch, func(rb c05x.RandomBatch) *vk.Finding {
+		n++
+		return c05x.RunBatch(u, fmt.Sprintf("rnd%d", n), rb.Sets, nil, "random", "VERIF_C05_LARGE=1", "VERIF_C05_MODE=respell")
 	})
 }
